@@ -541,32 +541,53 @@ func c08sub(c *an.Ctx) {
 		}
 		return false
 	}
-	// edges on which "exiting" is known: true edges of Exiting() tests combined with ephemeral
-	var exitingTrue []an.Edge
+	// after AddClient, Exiting() of the channel and of the topic are consulted; with either of them answering true (on an
+	// ephemeral object) the subscription is not committed and the client is taken off the channel again. Judged on paths
+	// with the call's result fixed, so the test may be a computed boolean assembled in several steps.
+	ephC := c.P.Field("nsqd", "Channel", "ephemeral")
+	ephT := c.P.Field("nsqd", "Topic", "ephemeral")
 	kinds := map[*ssa.Function]bool{}
-	exitingTrue = edgesWhere(fn, func(f an.Fact) bool {
-		call, ok := f.V.(*ssa.Call)
-		if !ok || !f.True {
-			return false
+	var exitingCalls []*ssa.Call
+	an.Instrs(fn, func(in ssa.Instruction) {
+		call, ok := in.(*ssa.Call)
+		if !ok {
+			return
 		}
 		for _, ex := range []*ssa.Function{chExiting, tExiting} {
 			if an.IsCallTo(call, ex) {
 				kinds[ex] = true
-				return true
+				exitingCalls = append(exitingCalls, call)
 			}
 		}
-		return false
 	})
 	c.Check(len(kinds) == 2, fn, "tests channel and topic exiting", fn.Pos(), "", "SUB no longer tests both the channel and the topic for Exiting() after AddClient")
 	for _, ac := range adds {
 		succ, _ := an.ErrEdges(ac.Value())
-		// (a) from an exiting-true edge, commit (state store / SubEventChan send) is unreachable without passing RemoveClient
-		q := &an.PathQ{Fn: fn, StartEdges: exitingTrue,
-			Sink: func(in ssa.Instruction, _ *an.PathState) bool { return isCommit(in) || an.IsReturn(in, nil) },
-			Cut:  func(in ssa.Instruction, _ *an.PathState) bool { return isCallToOn(in, rem, nil) }}
-		w, f := q.Find()
-		if f {
-			c.Bad(fn, "backs out of exiting channel", ac.Pos(), "after AddClient, on the edge where the ephemeral channel/topic is exiting, SUB can commit the subscription or return without RemoveClient: the client is attached to a channel that is being deleted", w)
+		// (a) with an Exiting() that answered true, commit (state store / SubEventChan send) or a success return is
+		// unreachable without passing RemoveClient
+		bad := false
+		var w []string
+		for _, ec := range exitingCalls {
+			consts := map[ssa.Value]*ssa.Const{ec: an.BoolConst(true)}
+			an.Instrs(fn, func(in ssa.Instruction) {
+				if u, ok := in.(*ssa.UnOp); ok {
+					if f, _ := an.LoadedField(u); f != nil && (f == ephC || f == ephT) {
+						consts[u] = an.BoolConst(true)
+					}
+				}
+			})
+			q := &an.PathQ{Fn: fn, StartAfter: []ssa.Instruction{ec}, Consts: consts, AllConsts: true,
+				// committing, answering (OK or error) or trying again – none of them before the client is off the channel
+				Sink: func(in ssa.Instruction, ps *an.PathState) bool {
+					return isCommit(in) || an.IsReturn(in, nil) || isCallToOn(in, add, nil)
+				},
+				Cut: func(in ssa.Instruction, _ *an.PathState) bool { return isCallToOn(in, rem, nil) }}
+			if ww, f := q.Find(); f {
+				bad, w = true, ww
+			}
+		}
+		if bad || len(exitingCalls) == 0 {
+			c.Bad(fn, "backs out of exiting channel", ac.Pos(), "after AddClient, with the ephemeral channel/topic exiting, SUB can commit the subscription or answer OK without RemoveClient: the client is attached to a channel that is being deleted", w)
 		} else {
 			c.OK(fn, "backs out of exiting channel", ac.Pos(), "")
 		}
@@ -574,7 +595,7 @@ func c08sub(c *an.Ctx) {
 		q2 := &an.PathQ{Fn: fn, StartEntry: true,
 			Sink:    func(in ssa.Instruction, _ *an.PathState) bool { return isCommit(in) },
 			CutEdge: func(e an.Edge, _ *an.PathState) bool { return an.EdgeIn(e, succ) }}
-		w, f = q2.Find()
+		w, f := q2.Find()
 		if f || len(succ) == 0 {
 			c.Bad(fn, "commit after AddClient success", ac.Pos(), "the subscription is committed without a successful AddClient", w)
 		} else {
